@@ -11,5 +11,6 @@ for f in "$@"; do
   timeout 600 /tmp/mut-target/debug/hvharness gen $f 5 0 $n $M/$f >/dev/null 2>&1
   res=$(/verif/runner/runner $M/$f.traces | awk '{print $2,$3,$5}' | sort | uniq -c | sort -rn | tr '\n' ';')
   echo "$name $f: $res"
+  python3 /verif/tools/montest.py $M/$f.traces | head -4
 done
 rm -rf $M
